@@ -218,6 +218,40 @@ let answer (s : state) (toks : Stdlib.String.t list) : Stdlib.String.t =
   | [ "outer"; h ] -> shrefs (Some (match outer_hwire s (href_of_tok h) with Some x -> [x] | None -> []))
   | _ -> failwith ("bad query: " ^ String.concat " " toks)
 
+(* ---- cross-check of extraction + this file's glue against vm_compute (harness/coq_eval.py) ----
+   "qd <query>" answers the same queries as "q <query>", but through the extracted [hanswer]
+   (coq/theories/Extract/DigestHier.v) on the plain, un-memoised state, printed in its canonical form:
+   rows separated by '|', numbers by '.'; first row 0 = out of fuel, 1 = answered; references LEAF FIRST.
+   Only the parsing of ops and queries is hand-written on this path. *)
+let hkind_of_tok = function
+  | "inst" -> HKInst | "port" -> HKPort | "pin" -> HKPin | "cable" -> HKCable | "wire" -> HKWire
+  | t -> failwith ("bad kind " ^ t)
+let item_of_tok it =
+  if it.[0] = 'O' then
+    (match String.split_on_char '.' (String.sub it 1 (String.length it - 1)) with
+     | [a; b] -> QOuter (id_of_tok a, id_of_tok b)
+     | _ -> failwith ("bad item " ^ it))
+  else QId (id_of_tok it)
+let parse_hq (toks : Stdlib.String.t list) : hq =
+  match toks with
+  | [ "wf"; n ] -> HWf (id_of_tok n)
+  | [ "enum"; k; n; r ] -> HEnum (hkind_of_tok k, id_of_tok n, bool_of_tok r)
+  | [ "below"; k; r; h ] -> HBelow (hkind_of_tok k, bool_of_tok r, href_of_tok h)
+  | [ "hrefs"; it ] -> HHrefs (item_of_tok it)
+  | [ "valid"; h ] -> HValid (href_of_tok h)
+  | [ "unique"; h ] -> HUnique (href_of_tok h)
+  | [ "name"; h ] -> HName (href_of_tok h)
+  | [ "ipaths"; n ] -> HIpaths (id_of_tok n)
+  | [ "prep"; n ] -> HPrep (id_of_tok n)
+  | [ "hwires"; n; x; r; h ] -> HHwires (id_of_tok n, sel_of_tok x, bool_of_tok r, href_of_tok h)
+  | [ "hcables"; n; x; r; h ] -> HHcables (id_of_tok n, sel_of_tok x, bool_of_tok r, href_of_tok h)
+  | [ "hpins"; r; h ] -> HHpins (bool_of_tok r, href_of_tok h)
+  | [ "inner"; h ] -> HInner (href_of_tok h)
+  | [ "outer"; h ] -> HOuter (href_of_tok h)
+  | _ -> failwith ("bad query: " ^ String.concat " " toks)
+let srows (l : n list list) =
+  String.concat "|" (List.map (fun r -> String.concat "." (List.map (fun x -> string_of_int (int_of_n x)) r)) l)
+
 let () =
   let st = ref init in
   let frozen : state option ref = ref None in
@@ -227,6 +261,10 @@ let () =
       let line = String.trim (input_line stdin) in
       if line = "reset" then (st := init; invalidate (); print_endline "reset")
       else if line = "" then ()
+      else if String.length line > 3 && String.sub line 0 3 = "qd " then begin
+        let toks = List.filter (fun t -> t <> "") (String.split_on_char ' ' (String.sub line 3 (String.length line - 3))) in
+        print_endline (try srows (hanswer !st (parse_hq toks)) with Failure m -> "ERROR " ^ m)
+      end
       else if String.length line > 2 && String.sub line 0 2 = "q " then begin
         let s = (match !frozen with Some s -> s | None -> let s = freeze !st in frozen := Some s; s) in
         let toks = List.filter (fun t -> t <> "") (String.split_on_char ' ' (String.sub line 2 (String.length line - 2))) in
